@@ -63,8 +63,10 @@ class _G:
 
     def btoken(self):
         """a value to BIND: now and then a falsy one (a binding is a binding whatever its truth value)"""
-        if self.rng.random() < 0.15:
-            return self.rng.choice([0, '', False, None, 0.0])
+        if self.rng.random() < 0.2:
+            # (0 / False / 0.0 and 1 / True / 1.0 are equal but distinguishable: a re-binding to an
+            # EQUAL value is still a new binding)
+            return self.rng.choice([0, '', False, None, 0.0, 1, True, 1.0])
         return self.token()
 
     def new_pid(self):
@@ -246,7 +248,11 @@ class _G:
                    else [['ab12', self.token()], ['cd3', self.token()]]}
             return ['tuple', [['Val', tgt], ['Match', ['dict', pairs]]]]
         if c == 'ref':
-            name = rng.choice(['r1', 'r2'])
+            # (a Ref name may coincide with a variable name: Ref definitions and S variables are
+            # separate name spaces)
+            name = rng.choice(['r1', 'r2', 'k1', 'k2'])
+            if name in NAMES:
+                self.seen_names.append(name)
             r = rng.random()
             if r < 0.5:
                 # counting recursion with a binder per level (shadowing across recursion levels)
